@@ -6,6 +6,23 @@ import subprocess
 from . import vf
 
 CLAIMS = {
+    "C01": dict(
+        category="model_checking",
+        technique="TLA+ binding contract Dec(T, J, old, opts) (spec/Bind.tla) evaluated by TLC over the bounded universe of types, "
+                  "type-directed documents with all single-point perturbations, prior destinations and configurations (spec/GenBind.tla); "
+                  "every case replayed on reflect-built types (a fresh decoder program each) against sonic and encoding/json with "
+                  "oracle agreement (spec = encoding/json, else no verdict)",
+        text="TLC computes for every bounded (type, document, prior value, configuration) case whether an error is required, whether "
+             "either outcome is tolerated (malformed text only inside a skipped value) and the exact destination afterwards; the "
+             "harness builds the type with reflect, decodes with encoding/json, sonic Unmarshal and UnmarshalFromString under the "
+             "matching frozen Config and demands the required outcome and a deeply equal destination.",
+        design_ref="DESIGN.md section 4 C01, section 11",
+        note="bounded types (wrapper depth 2 over 20 leaf kinds, structs of <= 2 fields, one level of embedding) and documents (matching "
+             "shape plus single-point perturbations); one representative literal per number / string class; three known deviations matched by "
+             "feature predicates (integer map key \"01\", duplicate map key merging, UTF-8 repair before RawMessage); quick tier runs one "
+             "seed-rotated slice per family",
+        engine="bind",
+    ),
     "C02": dict(
         category="model_checking",
         technique="TLA+ byte-class pushdown validator (JsonLex/GenLex) model-checked by TLC (PDA = grammar, strict within structural); "
